@@ -274,3 +274,84 @@ Proof.
   induction 1 as [local ifs bt Hbt|c L w now nowb ev R IH One Ty]; [apply q_init; exact Hbt|].
   apply deliver_all. apply (q_send bhear T c L [] L w now ev IH One Ty).
 Qed.
+
+(* ------------------------------------------------------------------ a browser that joins late *)
+(* A browser created while the provider is already serving has heard no announcement.  Its creation question (PTR for its
+   type, no known answers: its cache is empty) reaches the provider, whose answer - by the C11 rule that a PTR answer is
+   accompanied by the SRV and TXT records - carries the three served records; hearing it, the browser reports the service. *)
+Theorem late_joiner_reported T c L nowb (wq : world) src port id :
+  T <> [] -> bytes_eqb T browse_type = false ->
+  lreach c L -> TInv T c -> pv_exists (cp_prov c) = true -> pv_confirmed (cp_prov c) = true ->
+  BI T [] wq ->
+  (* the browser's creation question as the provider receives it (source, port and id as stamped by the transport) *)
+  let q := mkMessage src port id false false [mkQuery (Some T) T_PTR false] [] in
+  exists reply nm,
+    prov_on_message (cp_prov c) q = [ESend reply] /\
+    m_records reply = [pv_ptr (cp_prov c); pv_srv (cp_prov c); pv_txt (cp_prov c)] /\ m_response reply = true /\
+    BI T [pv_ptr (cp_prov c); pv_srv (cp_prov c); pv_txt (cp_prov c)] (fst (browser_on_message nowb 0 reply wq)) /\
+    In (ESig 0%N SIG_serviceAdded (PService (svc_of T nm (pv_srv (cp_prov c)) (pv_txt (cp_prov c)))))
+       (snd (browser_on_message nowb 0 reply wq)).
+Proof.
+  intros HT Hbr R IT Ex Cf B. cbv zeta. pose proof (lreach_inv c L R) as Iv.
+  destruct (Good_of_served T c L Iv IT Ex Cf) as (nm & G & HL).
+  set (p := pv_ptr (cp_prov c)) in *. set (s := pv_srv (cp_prov c)) in *. set (t := pv_txt (cp_prov c)) in *.
+  pose proof G as ([(P1 & P2 & P3) (S1 & S2) (X1 & X2)] & _).
+  set (q := mkMessage src port id false false [mkQuery (Some T) T_PTR false] []).
+  assert (E : prov_on_message (cp_prov c) q = [ESend (announcement (spec_reply_addr q) port id p s t)]).
+  { rewrite prov_reply_spec. unfold spec_prov_reply. rewrite Cf. cbn [negb orb m_response q].
+    unfold spec_asked. cbn [m_queries q fold_left]. unfold q_is. cbn [q_type q_name].
+    change (T_PTR =? 12)%N with true. cbn [andb]. fold p. rewrite P1.
+    assert (Nb : bs_eqb (Some T) (Some BROWSE) = false) by (unfold bs_eqb; cbn [bs_data]; exact Hbr).
+    rewrite Nb. unfold bs_eqb at 1. cbn [bs_data]. rewrite bytes_eqb_refl.
+    unfold spec_known. cbn [m_records q fold_left orb app]. reflexivity. }
+  exists (announcement (spec_reply_addr q) port id p s t), nm. split; [exact E|]. split; [reflexivity|]. split; [reflexivity|].
+  destruct (hear_fresh T nowb (spec_reply_addr q) port id p s t nm wq HT Hbr B G) as (te & w' & _ & Eh & B').
+  rewrite Eh. cbn [fst snd]. split; [exact B'|]. apply in_app_iff. right. left. reflexivity.
+Qed.
+
+(* the question a browser of type T sends when it is created on an empty cache is that question *)
+Lemma creation_question T :
+  exists m, browser_query_timeout 0 (mkWorld [empty_cache] [mkBrowser (Some T) 0 [] [] []] 0) = [ESendAll m; EStart (T_QUERY_OF 0) browse_period_ms] /\
+            m_queries m = [mkQuery (Some T) T_PTR false] /\ m_records m = [] /\ m_response m = false.
+Proof. eexists. split; [reflexivity|]. repeat split. Qed.
+
+(* ------------------------------------------------------------------ providers of another type *)
+(* the first loop keeps nothing of a response none of whose records it classifies as of interest *)
+Lemma bcr_skip_all now : forall rs names nulls c b,
+  Forall (fun r => classify b r = (false, None, None)) rs ->
+  browser_cache_records now 0 rs names nulls (mkWorld [c] [b] 0) = (mkWorld [c] [b] 0, names, nulls, []).
+Proof.
+  induction rs as [|r rs IH]; intros names nulls c b F; cbn [browser_cache_records]; [reflexivity|].
+  inversion F as [|? ? Hr Hrs]; subst. cbn [nth_error w_browsers]. rewrite Hr. rewrite (IH names nulls c b Hrs). reflexivity.
+Qed.
+
+(* a response all of whose records belong to a service type the browser does not browse for leaves it as it was *)
+Theorem foreign_response_ignored now (rs : list record) addr port id c b :
+  Forall (fun r => classify b r = (false, None, None)) rs ->
+  Forall (fun r => (r_type r =? T_A)%N || (r_type r =? T_AAAA)%N = false) rs ->
+  browser_on_message now 0 (mkMessage addr port id true false [] rs) (mkWorld [c] [b] 0) = (mkWorld [c] [b] 0, []).
+Proof.
+  intros F FA. unfold browser_on_message. cbn [m_response negb m_records].
+  rewrite (bcr_skip_all now rs [] false c b F). cbn [browser_update_names]. rewrite (addresses_none now rs c b FA). reflexivity.
+Qed.
+
+(* the announcement (or goodbye) of a service of another type T' is such a response for a browser of type T, provided T is
+   not the enumeration name and the instance's full name does not happen to end in ".T" *)
+Theorem other_type_ignored now (ptr srv txt : record) (T T' nm : list N) addr port id c b :
+  announces ptr srv txt T' nm -> b_type b = Some T -> bytes_eqb T browse_type = false ->
+  bytes_eqb T' T = false -> ends_with ([DOT] ++ T) (nm ++ DOT :: T') = false ->
+  browser_on_message now 0 (mkMessage addr port id true false [] [ptr; srv; txt]) (mkWorld [c] [b] 0) = (mkWorld [c] [b] 0, []).
+Proof.
+  intros [(P1 & P2 & P3) (S1 & S2) (X1 & X2)] Hty Hbr Hne Hend.
+  assert (Any : is_any b = false).
+  { unfold is_any, browser_any. rewrite Hty. unfold bs_eqb. cbn [bs_data]. exact Hbr. }
+  apply foreign_response_ignored.
+  - repeat constructor.
+    + unfold classify. rewrite Any, P2. change (12 =? T_PTR)%N with true. cbn iota.
+      unfold browser_ptr_browse, browser_ptr_type. cbn [andb orb]. rewrite Hty, P1. unfold bs_eqb. cbn [bs_data]. rewrite Hne. reflexivity.
+    + unfold classify. rewrite Any, S2. change (33 =? T_PTR)%N with false. change (33 =? T_SRV)%N with true. cbn [orb]. cbn iota.
+      unfold browser_srvtxt. cbn [orb]. rewrite Hty, S1. cbn [bs_data]. rewrite Hend. reflexivity.
+    + unfold classify. rewrite Any, X2. change (16 =? T_PTR)%N with false. change (16 =? T_SRV)%N with false. change (16 =? T_TXT)%N with true. cbn [orb]. cbn iota.
+      unfold browser_srvtxt. cbn [orb]. rewrite Hty, X1. cbn [bs_data]. rewrite Hend. reflexivity.
+  - repeat constructor; [rewrite P2|rewrite S2|rewrite X2]; reflexivity.
+Qed.
